@@ -15,10 +15,14 @@ import (
 	"github.com/xelaj/mtproto/zverif/ref/authsrv"
 	"github.com/xelaj/mtproto/zverif/sess"
 	"github.com/xelaj/mtproto/zverif/vclock"
+	"github.com/xelaj/mtproto/zverif/vcrand"
 	"github.com/xelaj/mtproto/zverif/vr"
 )
 
 type secrets map[string][]byte
+
+// failAt > 0: the failAt-th read of the OS random source fails during the scenario (fault dimension)
+var failAt int64
 
 // keyExchange runs one exchange under the scheduler (virtual clock = the same in every run) with the
 // process-global math/rand seeded with s; crypto/rand is the real one.
@@ -34,7 +38,12 @@ func keyExchange(s int64, clock int64, extraClient bool) (secrets, string) {
 			mtproto.NewMTProto(mtproto.Config{SessionStorage: &sess.MemStore{}, ServerHost: "x:1"})
 		}
 	}
+	vcrand.FailAt = failAt
 	w := sess.Run(sc, nil, false)
+	vcrand.FailAt = 0
+	if failAt > 0 && (w.ConnErr != nil || w.ConnPanic != "" || !w.ConnReturned) {
+		return secrets{}, "" // refusing to go on without the OS source is fine
+	}
 	if w.Auth == nil || w.Auth.GB == nil || w.ConnErr != nil || w.ConnPanic != "" {
 		return nil, fmt.Sprintf("exchange failed: err=%v panic=%s problems=%v", w.ConnErr, w.ConnPanic, w.Auth.Problems)
 	}
@@ -51,9 +60,20 @@ func srp(s int64, clock int64, extraClient bool) (secrets, string) {
 	p := hs.HexBig(hs.TelegramPrime)
 	B := make([]byte, 256)
 	B[0], B[255] = 0x40, 7
-	res, err := telegram.GetInputCheckPassword("pw", &telegram.AccountPassword{SRPB: B, SRPID: 1,
-		CurrentAlgo: &telegram.PasswordKdfAlgoSHA256SHA256PBKDF2HMACSHA512iter100000SHA256ModPow{Salt1: []byte("s1"), Salt2: []byte("s2"), G: 3, P: p.Bytes()}})
+	vcrand.FailAt = failAt
+	defer func() { vcrand.FailAt = 0 }()
+	var res telegram.InputCheckPasswordSRP
+	var err error
+	if p, _, _ := vr.Try(func() {
+		res, err = telegram.GetInputCheckPassword("pw", &telegram.AccountPassword{SRPB: B, SRPID: 1,
+			CurrentAlgo: &telegram.PasswordKdfAlgoSHA256SHA256PBKDF2HMACSHA512iter100000SHA256ModPow{Salt1: []byte("s1"), Salt2: []byte("s2"), G: 3, P: p.Bytes()}})
+	}); p && failAt > 0 {
+		return secrets{}, ""
+	}
 	if err != nil {
+		if failAt > 0 {
+			return secrets{}, ""
+		}
 		return nil, err.Error()
 	}
 	o, ok := res.(*telegram.InputCheckPasswordSRPObj)
@@ -65,7 +85,7 @@ func srp(s int64, clock int64, extraClient bool) (secrets, string) {
 
 func main() {
 	run := vr.New("C19", "exploration")
-	run.Rule("environment alphabet: global math/rand seed in {1, 2, 0x5eed} x pinned clock in {T0, T0+1s} x scenario {key exchange, key exchange after creating another client, SRP answer, SRP answer after creating a client}; each environment is run twice and all runs are compared pairwise; a secret that repeats is a violation; non-trivial = distinct (scenario, environment, secret) comparison")
+	run.Rule("environment alphabet: global math/rand seed in {1, 2, 0x5eed} x pinned clock in {T0, T0+1s} x scenario {key exchange, key exchange after creating another client, SRP answer, SRP answer after creating a client} x fault {none, the 1st / 2nd / 3rd read of the OS random source fails}; each environment is run twice and all runs are compared pairwise; a secret that repeats is a violation; non-trivial = distinct (scenario, environment, secret) comparison")
 	run.Assume("bytes from the OS source differ between runs with probability 1 - 2^-128, so a repeat is a reproducible derivation, not chance",
 		"LIMIT: this decides the property for the draw sites these drivers execute and for the reproducible inputs that are pinned (global math/rand state, the clock); a generator seeded from an input that is not pinned (pid, hostname) would pass, and paths no driver executes are not covered - provenance on all paths is a data-flow question outside this technique")
 	seeds := []int64{1, 2, 0x5eed}
@@ -79,41 +99,51 @@ func main() {
 		f    func(s, c int64, extra bool) (secrets, string)
 		xtra bool
 	}{{"key-exchange", keyExchange, false}, {"key-exchange-after-new-client", keyExchange, true}, {"srp", srp, false}, {"srp-after-new-client", srp, true}} {
-		var all []obs
-		for _, s := range seeds {
-			for _, c := range clocks {
-				for rep := 0; rep < 2; rep++ {
-					sec, bad := scn.f(s, c, scn.xtra)
-					if bad != "" {
-						run.Violation("scenario-fails|"+scn.name, scn.name+": "+bad, nil)
-						continue
-					}
-					all = append(all, obs{fmt.Sprintf("seed=%d clock=%d run=%d", s, c/1e9, rep), sec})
-				}
+		for _, fa := range []int64{0, 1, 2, 3} {
+			failAt = fa
+			if fa > 0 && scn.xtra {
+				continue
 			}
-		}
-		for i := 0; i < len(all); i++ {
-			for j := i + 1; j < len(all); j++ {
-				for name, v := range all[i].sec {
-					id := fmt.Sprintf("%s|%s|%s vs %s", scn.name, name, all[i].env, all[j].env)
-					run.Eval(id, true)
-					if bytes.Equal(v, all[j].sec[name]) {
-						same := "same-seed-same-clock"
-						ei, ej := strings.Fields(all[i].env), strings.Fields(all[j].env)
-						switch {
-						case ei[0] != ej[0] && ei[1] == ej[1]:
-							same = "different-seed-same-clock"
-						case ei[0] == ej[0] && ei[1] != ej[1]:
-							same = "same-seed-different-clock"
-						case ei[0] != ej[0]:
-							same = "different-seed-different-clock"
+			var all []obs
+			for _, s := range seeds {
+				for _, c := range clocks {
+					for rep := 0; rep < 2; rep++ {
+						sec, bad := scn.f(s, c, scn.xtra)
+						if bad != "" {
+							run.Violation("scenario-fails|"+scn.name, scn.name+": "+bad, nil)
+							continue
 						}
-						run.Violation(fmt.Sprintf("repeats|%s|%s|%s", scn.name, name, same),
-							fmt.Sprintf("%s: %s is identical (%x...) in two runs [%s] and [%s]: it is a function of reproducible inputs, not of the OS random source", scn.name, name, v[:8], all[i].env, all[j].env), map[string]any{"scenario": scn.name, "secret": name})
+						all = append(all, obs{fmt.Sprintf("seed=%d clock=%d run=%d fail=%d", s, c/1e9, rep, fa), sec})
+					}
+				}
+			}
+			for i := 0; i < len(all); i++ {
+				for j := i + 1; j < len(all); j++ {
+					for name, v := range all[i].sec {
+						id := fmt.Sprintf("%s|%s|%s vs %s", scn.name, name, all[i].env, all[j].env)
+						run.Eval(id, true)
+						if bytes.Equal(v, all[j].sec[name]) {
+							same := "same-seed-same-clock"
+							ei, ej := strings.Fields(all[i].env), strings.Fields(all[j].env)
+							switch {
+							case ei[0] != ej[0] && ei[1] == ej[1]:
+								same = "different-seed-same-clock"
+							case ei[0] == ej[0] && ei[1] != ej[1]:
+								same = "same-seed-different-clock"
+							case ei[0] != ej[0]:
+								same = "different-seed-different-clock"
+							}
+							if fa > 0 {
+								same += fmt.Sprintf("|os-source-read-%d-fails", fa)
+							}
+							run.Violation(fmt.Sprintf("repeats|%s|%s|%s", scn.name, name, same),
+								fmt.Sprintf("%s: %s is identical (%x...) in two runs [%s] and [%s]: it is a function of reproducible inputs, not of the OS random source", scn.name, name, v[:8], all[i].env, all[j].env), map[string]any{"scenario": scn.name, "secret": name})
+						}
 					}
 				}
 			}
 		}
+		failAt = 0
 	}
 	run.Sample(map[string]any{"scenario": "key-exchange", "environment": "math/rand seeded with 1, clock pinned to T0", "compared": "nonce, new_nonce, g_b of run 0 vs run 1"})
 	run.Finish()
